@@ -57,10 +57,39 @@ def _names(lst):
     return out
 
 
+def _gomod_replaces(case):
+    """the replace directives of a gomod case line (document token: requires|replaces|go|toolchain[|older|go.sum fields], hex fields)"""
+    t = case.split(' ')
+    if len(t) < 4 or t[0] != 'gomod':
+        return None
+    f = t[3].split('|')
+    if len(f) < 4:
+        return None
+    out = []
+    for e in ([] if f[1] in ('-', '') else f[1].split(',')):
+        q = e.split(':')
+        if len(q) != 4:
+            return None
+        try:
+            out.append(tuple(bytes.fromhex(x).decode('latin-1') for x in q))
+        except ValueError:
+            return None
+    return out
+
+
 def finding_class(case, fi, fm):
-    """C03 has no known findings: the three defects the stream found (requirements.txt option pattern inside names, packages.lock.json duplicates across
-    target frameworks, packages.lock.json project references reported as packages with an empty version) were repaired in /repo; their witnesses in
-    corpus/C03 are checked strictly."""
+    """Known findings of C03. The class predicate is computed from the INPUT (never from the generator's label)."""
+    reps = _gomod_replaces(case)
+    if reps:
+        # C03/gomod-wildcard-replace-follows-replaced-name: the file holds a wildcard directive (no version on the left) whose left path is the
+        # RIGHT path of another directive that is not a wildcard for that same path — the only shape in which matching a wildcard against the
+        # entry's CURRENT name (what extractGoMod does) differs from matching it against the module as required (what the go command does)
+        for i, w in enumerate(reps):
+            if w[1] != '':
+                continue
+            for j, r in enumerate(reps):
+                if i != j and r[2] == w[0] and not (r[1] == '' and r[0] == w[0]):
+                    return 'C03/gomod-wildcard-replace-follows-replaced-name'
     return None
 
 
@@ -134,7 +163,7 @@ def run(ctx):
                         compare_keys=['pk'], nontrivial=nontrivial, oracle=oracle, classify=classify, finding_class=finding_class)
     ctx.notes.append('observations outside the well-formed generator (model and implementation agree; not counted as violations): '
                      'a Gemfile.lock line of >= 64 KiB silently ends the file without an error; requirements.txt `foo>1.0` and `foo @ url` lines are dropped; '
-                     'go.mod replace directives are chained (a => b, b => c reports c); packages.lock.json `"type": "Project"` references are skipped (fix 9dc2b6de)')
+                     'packages.lock.json `"type": "Project"` references are skipped (fix 9dc2b6de)')
     if skew:
         ctx.mismatches.extend(c for c, _ in skew)
         ctx.violation('the Lean specification and the harness disagree about generated files (%d case(s)): %s — neither is a statement about /repo; first case below' % (len(skew), skew[0][1]),
